@@ -204,7 +204,7 @@ _MISSING = object()
 
 # stdlib callables that are pure functions of their arguments and may be folded natively
 _NATIVE_OK = {
-    "struct": {"pack", "unpack", "calcsize", "error"},
+    "struct": {"pack", "unpack", "calcsize", "error", "Struct"},
     "binascii": {"hexlify", "unhexlify", "b2a_base64", "a2b_base64", "Error"},
     "functools": {"total_ordering", "reduce"},
     "collections": {"defaultdict", "OrderedDict", "namedtuple"},
